@@ -45,7 +45,7 @@ static int
 xer__print2fp(const void *buffer, size_t size, void *app_key) {
 	FILE *stream = (FILE *)app_key;
 
-	if(fwrite(buffer, 1, size, stream) != size)
+	if(size && fwrite(buffer, 1, size, stream) != size)
 		return -1;
 
 	return 0;
@@ -88,7 +88,7 @@ xer__buffer_append(const void *buffer, size_t size, void *app_key) {
         xb->allocated_size = new_size;
     }
 
-    memcpy(xb->buffer + xb->buffer_size, buffer, size);
+    if(size) memcpy(xb->buffer + xb->buffer_size, buffer, size);
     xb->buffer_size += size;
     xb->buffer[xb->buffer_size] = '\0';
     return 0;
